@@ -2,7 +2,8 @@
 //! and prints one JSON line per script: {"id":..,"out":[..],"completion":".."}.
 //! Input (stdin): scripts separated by header lines `//// <id> [key=value ...]`.
 //!   keys: reuse=1 (keep the context of the previous script), loop=<n> rec=<n> stack=<n> (runtime limits),
-//!         budget=<n> (instruction budget), opt=<bits> (optimizer options; absent = default)
+//!         budget=<n> (instruction budget), opt=<bits> (optimizer options; absent = default),
+//!         ic=0 (inline caches off, hook), icrec=1 (record InlineCache get/set events into "ic")
 use boa_engine::optimizer::OptimizerOptions;
 use bvh::{Limits, eval_in, guarded, new_context};
 use std::io::Read;
@@ -27,6 +28,8 @@ fn main() {
         let mut l = Limits::default();
         let mut reuse = false;
         let mut opt: Option<u8> = None;
+        let mut ic_on = true;
+        let mut ic_rec = false;
         for kv in it {
             if let Some((k, v)) = kv.split_once('=') {
                 match k {
@@ -36,6 +39,8 @@ fn main() {
                     "stack" => l.stack = v.parse().ok(),
                     "budget" => l.instructions = v.parse().unwrap_or(l.instructions),
                     "opt" => opt = v.parse().ok(),
+                    "ic" => ic_on = v != "0",
+                    "icrec" => ic_rec = v == "1",
                     _ => {}
                 }
             }
@@ -44,6 +49,9 @@ fn main() {
         if let Some(bits) = opt {
             ctx.set_optimizer_options(OptimizerOptions::from_bits_truncate(bits));
         }
+        boa_engine::verif::set_inline_caches(ic_on);
+        boa_engine::verif::record_ic_events(ic_rec);
+        let _ = boa_engine::verif::take_ic_events();
         let src = body.into_bytes();
         let mut cell = Some(ctx);
         let t = guarded(std::panic::AssertUnwindSafe(|| {
@@ -53,6 +61,11 @@ fn main() {
         if reuse && !t.completion.starts_with("panic") { shared = cell.take(); }
         let mut j = t.to_json();
         j["id"] = serde_json::Value::String(id);
+        if ic_rec {
+            j["ic"] = serde_json::json!(boa_engine::verif::take_ic_events());
+        }
+        boa_engine::verif::set_inline_caches(true);
+        boa_engine::verif::record_ic_events(false);
         println!("{j}");
     }
 }
